@@ -382,6 +382,38 @@ def run(ctx):
                    % (NT, npath, nrun, nres))
     cov['impl_model_disagreements'] = ndis
     cov['impl_property_failures'] = nbad
+    # ---- "... or raises": the connection ends right after the K-th reply frame (every K): the pipeline raises, or has every result
+    from props import c13
+    proc, port = start_simulator()
+    relay = c13.Relay(port)
+    ncut = 0
+    try:
+        ops = [dict(path=[{'symbolic': 'T'}, {'element': k % 8}], elements=1, method='read') for k in range(7)]
+        for depth, multiple in ((3, 0), (1, 0), (2, 120)) if not ctx.thorough else ((3, 0), (1, 0), (0, 0), (2, 120), (5, 250), (20, 0)):
+            relay.limit = None
+            results, sent, events, err = run_ops(relay.port, ops, depth, multiple, False)
+            stream = relay.stream
+            if err or len(results) != len(ops):
+                bad(dict(depth=depth, multiple=multiple, error=err), 'through a transparent relay the client yielded %d results for %d operations' % (len(results), len(ops))); break
+            ends, i = [], 0
+            while i + 24 <= len(stream):
+                i += 24 + struct.unpack('<H', stream[i + 2:i + 4])[0]; ends.append(i)
+            for e in ends[:-1]:
+                relay.limit, relay.mode = e, 'cut'
+                results, sent, events, err = run_ops(relay.port, ops, depth, multiple, False)
+                ncut += 1
+                if err is None and len(results) != len(ops):
+                    bad(dict(depth=depth, multiple=multiple, connection_closed_after_reply_bytes=e, reply_frames_delivered=ends.index(e) + 1, results=len(results), operations=len(ops)),
+                        'the connection closed after %d reply frames and the client returned %d results for %d operations without raising' % (ends.index(e) + 1, len(results), len(ops)))
+                    break
+    finally:
+        relay.close() if hasattr(relay, 'close') else None
+        proc.terminate()
+        try:
+            proc.wait(5)
+        except Exception:
+            proc.kill()
+    cov['runs_with_connection_closed_at_a_reply_boundary'] = ncut
     if ndis and not nbad:
         ctx.unresolved('correspondence client.connector issue / pipeline / parse_operations = Model.Client / Model.OpText', first)
     elif ndis:
